@@ -195,4 +195,7 @@ typedef void (*kds_sgr)(const uint8_t *dgd8, int32_t width, int32_t height, int3
 typedef void (*kds_sgr_apply)(const uint8_t *dat, int32_t width, int32_t height, int32_t stride, int32_t eps, const int32_t *xqd,
                               uint8_t *dst, int32_t dst_stride, int32_t *tmpbuf, int32_t bit_depth, int32_t highbd);
 
+typedef void (*kds_fft)(const float *input, float *temp, float *output);
+typedef double (*kds_cross_corr)(unsigned char *im1, int stride1, int x1, int y1, unsigned char *im2, int stride2, int x2, int y2);
+
 #endif
